@@ -101,7 +101,7 @@ class C09(Prop):
     pid = "C09"
     prop_file = "Props/C09.v"
     module = "Props.C09"
-    gen_deps = ["Choice", "ChoiceFn"]
+    gen_deps = ["Choice", "ChoiceFn", "Table", "StreamFn", "FmtFn", "AutoFn", "GlueFn", "MacrosFn"]
     harness = ("h-core", "hcore")
     nontrivial_rule = (
         "cases: the full cross product global {Auto, AlwaysAnsi, Always, Never} x NO_COLOR {unset,'','0','1'} x CLICOLOR_FORCE {unset,'','0','1'} x "
